@@ -24,7 +24,7 @@ char *strerror(int e) { return (char *)"e"; }
 int close(int fd) { g_sock_closed = 1; return 0; }
 time_t g_now;
 time_t time(time_t *t) { if (t) *t = g_now; return g_now; }
-double difftime(time_t a, time_t b) { return (double)(a - b); }
+double difftime(time_t a, time_t b) { return (double)a - (double)b; }
 
 short g_revents;
 int poll(struct pollfd *fds, nfds_t n, int timeout) {
@@ -67,7 +67,7 @@ int KSI_OctetString_new(KSI_CTX *ctx, const unsigned char *data, size_t data_len
 	*t = (KSI_OctetString *)&g_pending_count;      /* identity only */
 	return KSI_OK;
 }
-void KSI_OctetString_free(KSI_OctetString *o) { }
+void KSI_OctetString_free(KSI_OctetString *o) { if (o != NULL && g_pending) g_pending = 0; /* an element that could not be queued is dropped: the buffer still holds it */ }
 
 void *memmove(void *dst, const void *src, size_t n) {
 	__CPROVER_assert(g_pending, "compaction only after an element was delivered");
